@@ -219,13 +219,23 @@ func (d dropper) Drop(err error) {
 
 // readAll is the consumer loop of DB.recoverJournal: ErrUnexpectedEOF from a record ⇒ next record.
 func readAll(stream []byte, strict, checksum bool) (res *readRes) {
+	return readAllWith(stream, strict, checksum, false)
+}
+
+// readAllWith: with nilDropper the reader gets no dropper at all (`NewReader` documents "The dropper may be nil"): the
+// records and the way the stream ends must be those of the run with a dropper, and it must not panic.
+func readAllWith(stream []byte, strict, checksum, nilDropper bool) (res *readRes) {
 	res = &readRes{}
 	defer func() {
 		if r := recover(); r != nil {
 			res.panicked = fmt.Sprint(r)
 		}
 	}()
-	jr := journal.NewReader(bytes.NewReader(stream), dropper{&res.ev}, strict, checksum)
+	var dr journal.Dropper = dropper{&res.ev}
+	if nilDropper {
+		dr = nil
+	}
+	jr := journal.NewReader(bytes.NewReader(stream), dr, strict, checksum)
 	for iter := 0; ; iter++ {
 		if iter > len(stream)+10 {
 			res.fin = "loop"
@@ -263,6 +273,18 @@ func readAll(stream []byte, strict, checksum bool) (res *readRes) {
 		break
 	}
 	return res
+}
+
+func sameRecords(a, b [][]byte) bool {
+	if len(a) != len(b) {
+		return false
+	}
+	for i := range a {
+		if !bytes.Equal(a[i], b[i]) {
+			return false
+		}
+	}
+	return true
 }
 
 var allFlags = [][2]bool{{true, true}, {true, false}, {false, true}, {false, false}}
@@ -535,6 +557,16 @@ func (g *generator) readAndCheck(p *prog, mutated []byte, ms []mut, kind string)
 		parts[i] = rr.String()
 		g.describeRead(f, rr)
 		g.judge(p, mutated, ms, kind, f, rr)
+		// the same stream through a reader WITHOUT a dropper
+		rn := readAllWith(mutated, f[0], f[1], true)
+		g.s.Count("nil-dropper runs", flagStr(f))
+		if rn.panicked != "" {
+			g.s.Violate("journal.Reader:nil-dropper:panic", fmt.Sprintf("flags (strict,checksum)=%s: the reader created with a nil dropper panicked: %s", flagStr(f), rn.panicked),
+				map[string]interface{}{"ops": p.opsStr, "mutations": fmt.Sprint(ms), "kind": kind})
+		} else if rn.fin != rr.fin || !sameRecords(rn.records(), rr.records()) {
+			g.s.Violate("journal.Reader:nil-dropper:differs", fmt.Sprintf("flags (strict,checksum)=%s: with a nil dropper the reader yields %d records and ends with %s; with a dropper %d records and %s", flagStr(f), len(rn.records()), rn.fin, len(rr.records()), rr.fin),
+				map[string]interface{}{"ops": p.opsStr, "mutations": fmt.Sprint(ms), "kind": kind})
+		}
 	}
 	return strings.Join(parts, " ; ")
 }
